@@ -1,6 +1,8 @@
 # C06 -- snapshot then restart restores exactly the snapshotted state
 import itertools, random, re
 from nodegen import *
+from common import build_binary
+import realdisk
 
 ID = "C06"
 DRIVER = "disk"
@@ -11,7 +13,10 @@ RULE = ("exhaustive operation sequences (length <= 4 quick / 5 thorough) over {s
         "{snapshot false, snapshot true} (followed by the real snapshot_all_pendding_dbs) and restart (fresh Databases + load_all_dbs "
         "on the same directory), plus seeded random sequences up to 40 steps over 3 keys and 2 databases with values of 0-600 bytes "
         "(multi-byte UTF-8 included); a final snapshot + restart closes every case; distinct = distinct canonical trace; "
-        "non-trivial = a restart restored at least one key that had been updated or removed after its first snapshot")
+        "non-trivial = a restart restored at least one key that had been updated or removed after its first snapshot; real-process "
+        "family b*: one real nun-db process with its own snapshot timer (NUN_DECLUTTER_INTERVAL=1), 3-12 operations with snapshot "
+        "commands (the timer writes them), SIGKILL and restart; what a freshly started process finally serves over TCP is compared "
+        "with the model's state after the same snapshots and restarts")
 ASSUMPTIONS = ["the snapshot's key iteration order (HashMap order) and the directory order at load time are observed from the run "
                "(hook record_key_order / directory listing) and handed to the model; the theorems quantify over every order",
                "no crash during a snapshot (that is C11)", "version arguments below -1 are outside the quantifier"]
@@ -47,9 +52,67 @@ def build(seq):
     return ops
 
 
+def driver_of(case):
+    return "realdisk" if case[0].startswith("b") else "disk"
+
+
+def impl_runner_for(drv):
+    if drv != "realdisk":
+        return None
+
+    def run(cases, ctx, rundir):
+        rc, out, binary = build_binary()
+        if rc != 0:
+            return {}, ["the nun-db binary does not build: %s" % out[-600:]]
+        return realdisk.run_cases(cases, binary, rundir)
+    return run
+
+
+def model_driver_of(drv):
+    return "disk"
+
+
+def reduce_model(case, drv, obs):
+    return realdisk.reduce_model(case, obs) if drv == "realdisk" else obs
+
+
+def shrink_budget(case):
+    return 0 if case[0].startswith("b") else 12
+
+
+def real_cases(tier, rng, dist):
+    """one real nun-db process with its own snapshot timer (one second), killed and started again: what the restarted process
+    serves is compared with the model's state after the same snapshots and restarts"""
+    out = []
+    n = {"quick": 24, "thorough": 240, "search": 12}[tier]
+    for i in range(n):
+        seq = []
+        for _ in range(rng.randint(3, 12)):
+            r = rng.random()
+            key = rng.choice(KEYS)
+            if r < 0.4:
+                seq.append(("c", "set %s %s" % (key, rng.choice([v for v in VALS if v != ""]))))
+            elif r < 0.5:
+                seq.append(("c", "set-safe %s %d %s" % (key, rng.choice([-1, 0, 1, 2]), rng.choice(["x", "x y", "12"]))))
+            elif r < 0.65:
+                seq.append(("c", "remove %s" % key))
+            elif r < 0.75:
+                seq.append(("c", "increment %s %d" % (key, rng.randint(1, 9))))
+            elif r < 0.92:
+                seq.append(("s", rng.choice(["false", "false", "true"]), rng.choice(["d1", "d1", "d1|d2"])))
+            else:
+                seq.append(("r",))
+        ops = build(seq)
+        # the closing reads of build() are not needed: the final view is taken by a fresh process
+        out.append(("b%d" % i, ["P"], ops))
+    dist["real_process_with_timer"] = n
+    return out
+
+
 def gen_cases(tier, seed):
     rng = random.Random(seed)
     cases, dist = [], {"exhaustive": 0, "random": 0, "value_len_hist": {}}
+    cases += real_cases(tier, random.Random(seed + 5), dist)
     maxlen, nrand = {"quick": (4, 1500), "thorough": (5, 25000), "search": (3, 1500)}[tier]
     k = 0
     for L in range(1, maxlen + 1):
@@ -85,6 +148,8 @@ def gen_cases(tier, seed):
 
 def augment(case, io):
     cid, hdr, ops = case
+    if cid.startswith("b"):
+        return realdisk.with_load_orders(case)
     if io is None:
         return case
     aux = list(io["aux"])
@@ -119,6 +184,8 @@ def dataset(dump, db):
 
 
 def oracle(case, io, mo):
+    if case[0].startswith("b"):
+        return [("real-run-failed", l[:200]) for l in io["obs"] if not l.startswith("V")]
     fails = []
     obs = split_obs(io)
     last = {}          # db -> dataset at its last completed snapshot
@@ -165,6 +232,8 @@ def oracle(case, io, mo):
 
 
 def nontrivial(case, io):
+    if case[0].startswith("b"):
+        return any(l.startswith("V") and "=" in l for l in io["obs"])
     obs = split_obs(io)
     snaps = sum(1 for op in case[2] if op[0] == "flush")
     mut_after = False
